@@ -61,7 +61,7 @@ class SimThread:
 
 _STATE_ID = {NEW: 0, RUNNABLE: 1, BLOCKED: 2, DONE: 3}
 _KIND_ID = {None: 0, "get": 1, "join": 2, "sleep": 3, "stall": 4, "ext": 5,
-            "putwait": 6, "lock": 7, "event": 8}
+            "putwait": 6, "lock": 7, "event": 8, "cond": 9, "sem": 10}
 
 _OPID = {}
 
@@ -258,6 +258,12 @@ class Sim:
             try:
                 t.block_obj.waiters.remove(t)
             except ValueError:
+                pass
+        elif t.block_kind in ("cond", "sem", "lock", "event") \
+                and t.block_obj is not None:
+            try:
+                t.block_obj.waiters.remove(t)
+            except (ValueError, AttributeError):
                 pass
         elif t.block_kind == "putwait" and t.block_obj is not None:
             try:
